@@ -364,6 +364,9 @@ def install(reg, src):
         if not c.verifying:
             # lru_cache hashes its arguments before the body runs: Expression.__hash__ reads self._hash
             c.requires(HASHOK(sp, e), name="memo key hashable (_hash assigned by __init__)")
+            # C14: Parameter.__eq__ is by name while the value lives in the object, so a closure memoised for one Parameter
+            # object would be returned for another one of the same name (lemma:memo:_compile_cached covers the other kinds)
+            c.requires(z3.Not(sp.K.is_kind(sp.ref(e), "Parameter")), name="a Parameter root is never memoised (C14)")
         c.returns(lambda cc: compiled_fn(sp, e, IDX))
         if c.verifying:
             def post(res):
